@@ -58,8 +58,8 @@ def phases(quick):
     ]
     if not quick:
         ph += [
-            ("2tags/full", 2, [full] * 3, g.tags("outer", (RAW_BODY_A, "a")) + ml_tags("few"),
-             ("default",), (False, True), NL_FORMS),
+            ("2tags/full", 2, [full] * 3, g.tags("outer", (RAW_BODY_A,)) + ml_tags("few"),
+             ("default",), (False,), NL_FORMS),
             ("3tags/small", 3, [g.CHUNKS_SMALL] * 4,
              g.tags("none") + [("raw", ol, "", RAW_BODY_A, "", cr) for ol in ("", "-") for cr in ("", "-")]
              + [(k, m, m) for k in ML_KINDS for m in ("", "-")],
@@ -153,12 +153,12 @@ def shard(arg) -> core.Part:
                             toks = None
                             bad = ("raises", f"{type(e).__name__}: {e}")
                         if roles or "\n" in src_n:
-                            p.sig((labels, dname, trim, lstrip, ktn, roles, nl, toks[-1][0] if toks else 0))
+                            p.sig((labels, dname, trim, lstrip, ktn, roles))
                         if bad:
                             p.violation(f"C39/{bad[0]}/trim={int(trim)},lstrip={int(lstrip)}/{labels}", {
                                 "msg": f"source {src!r} delimiters={dname} trim_blocks={trim} lstrip_blocks={lstrip} "
                                        f"keep_trailing_newline={ktn}: {bad[1]}",
-                                "skeleton": g.jsonable(sk), "source": src, "tokens": repr(toks),
+                                "skeleton": g.jsonable(sk), "source": src, "tokens": repr(toks), "size": len(src),
                                 "script": "import jinja2\n"
                                           f"env = jinja2.Environment(trim_blocks={trim}, lstrip_blocks={lstrip}, "
                                           f"keep_trailing_newline={ktn}, **{g.env_kwargs(delims)!r})\n"
@@ -175,7 +175,7 @@ def run(ctx: core.Ctx):
     ctx.rule = ("all skeletons per phase x delimiter sets x keep_trailing_newline x 4 trim/lstrip settings x line-break "
                 "forms (forms other than \\n only for sources that contain a line break); non-trivial = R-ws removes a "
                 "span or the source has a line break; distinct = distinct (tag kinds+modifiers, delimiter set, settings, "
-                "removed-span kinds, line-break form, last line number)")
+                "removed-span kinds)")
     ctx.assumptions += [
         "R-ws rules K1-K4 calibrated as in C12",
         "CALIBRATED: whitespace removed on the left of a tag (lstrip_blocks, '-' before the tag) is absent from the token "
@@ -197,6 +197,7 @@ def run(ctx: core.Ctx):
                         "line_break_forms": [repr(x) for x in nls], "settings": 4}
     ctx.cov["bounds"] = bounds
     ctx.pmap(shard, shards)
+    ctx.viol.sort(key=lambda v: (v[0], v[1].get("size", 0), v[1].get("msg", "")))  # smallest input first per signature
     ctx.cov["shards_completed"] = len(shards)
     for name, b in bounds.items():
         if ctx.counters.get("skeletons/" + name, 0) != b["skeletons"]:
